@@ -2,6 +2,7 @@ import Driver.Util
 import Torf.Model.Geometry
 import Torf.Spec.Geometry
 import Torf.Model.Stream
+import Torf.Model.GeometryFs
 open Lean Torf
 namespace Driver.C11
 open Torf.Geometry (Err Res)
@@ -107,9 +108,136 @@ def layout (j : Json) : Except String Json := do
   return jobj [("res", jarr res), ("npieces", jnat (nPieces L sizes.sum)),
                ("iter", jarr ((Stream.iterPieces L (mkFiles sizes)).map pieceJson))]
 
+/-! ### reading through a file system (content-path spellings) -/
+
+open Torf.Reuse (FS Node)
+
+def parseNode (j : Json) : Except String Node := do
+  let k ← getStr j "k"
+  match k with
+  | "f" => return .file (← getNat j "size") (← getBool j "r") (← getNat j "c")
+  | "d" =>
+    let es ← (← getArr j "e").mapM fun e => do
+      let a ← e.getArr?
+      let n ← (a[0]!).getStr?
+      let i ← (a[1]!).getNat?
+      pure (n, i)
+    return .dir (← getBool j "r") (← getBool j "x") es
+  | "l" => return .link (Torf.Paths.parse (← getStr j "t"))
+  | _ => throw s!"unknown node kind {k}"
+
+def plainName (s : String) : Bool := s != "" && s != "." && s != ".." && !s.contains '/'
+
+/-- well-formed inode table (root is a directory; plain, pairwise distinct entry names pointing into
+    the table; non-empty link targets) whose regular files have the size of their content -/
+def wfDisk (fs : Torf.Reuse.FS) (cidSizes : Array Nat) : Bool :=
+  (match fs[0]? with | some (Node.dir ..) => true | _ => false) &&
+  fs.all fun (n : Node) => match n with
+    | .dir _ _ es => es.all (fun e => plainName e.1 && decide (e.2 < fs.length)) &&
+        (es.map (·.1)).eraseDups.length == es.length
+    | .link t => !(t.comps.isEmpty) && (t.abs || t.comps.headD "" != "")
+    | .file sz _ cid => cidSizes[cid]? == some sz
+
+def optJson (f : α → Json) : Option α → Json
+  | some a => f a
+  | none => Json.null
+
+/-- does the model's own spelling (pathlib form) lead where the untouched spelling leads -/
+def sameLook : Res (List Nat) → Res (List Nat) → Bool
+  | .ok a, .ok b => a == b
+  | .error a, .error b => a == b
+  | _, _ => false
+
+/-- op `c11.fs` : {L, sizes, names : listed names per file (below the torrent's name), single, fs :
+    inode table, cidSizes : size per content id, storedCids : content ids whose concatenation the stored
+    hashes were made of, nstored, bad?, runs : [{cwd, cp, queries}]}
+    ↦ per run: the spelling handed out / opened per file, what is found there, model / spec / hyp per
+    query, sequential pieces (when everything is found) -/
+def fsOp (j : Json) : Except String Json := do
+  let L ← getNat j "L"
+  let sizes ← getNats j "sizes"
+  let single ← getBool j "single"
+  let names ← (← getArr j "names").mapM fun x => do
+    let a ← x.getArr?
+    a.toList.mapM (·.getStr?)
+  let fs ← (← getArr j "fs").mapM parseNode
+  let cidSizes := (← getNats j "cidSizes").toArray
+  let cidBytes := (mkFiles cidSizes.toList).toArray
+  let bytes : Nat → List Nat := fun cid => cidBytes.getD cid []
+  let storedCids ← getNats j "storedCids"
+  let nstored := (getOptNat j "nstored").getD 0
+  let stored := storedOf L (storedCids.map bytes) nstored (getOptNat j "bad")
+  let n := sizes.length
+  let hL := decide (L > 0)
+  let ne := noEmpty sizes
+  let wf := wfDisk fs cidSizes && names.all (·.all plainName) && (single || names.all (!·.isEmpty)) &&
+    decide (names.length = n)
+  let d0 : Geometry.Disk Nat := ⟨fs, [], bytes⟩
+  let runs ← (← getArr j "runs").mapM fun r => do
+    let cwdStack ← match Reuse.resolve d0.world (Torf.Paths.parse (← getStr r "cwd")) with
+      | .ok (.dir st) => pure st
+      | _ => throw "cwd does not resolve to a directory of the table"
+    let d : Geometry.Disk Nat := { d0 with cwd := cwdStack }
+    let cp := Torf.Paths.parse (← getStr r "cp")
+    let pathOf := Geometry.pathOfFile single cp names
+    let look := Geometry.lookFs d pathOf sizes
+    -- specification side: the untouched spelling  content path / listed names
+    let os : List (Res (List Nat)) := (List.range n).map fun k =>
+      Geometry.osFile d single cp (names.getD k [])
+    let lookAgree := (List.range n).all fun k => sameLook (Geometry.openRead d (pathOf k)) (os.getD k (.error .value))
+    let seenOk : Option (List (List Nat)) := os.mapM fun x => match x with
+      | .ok b => some b
+      | .error _ => none
+    let allSeen : Option (List (List Nat)) := match seenOk with
+      | some fl => if fl.map List.length == sizes then some fl else none
+      | none => none
+    let noneSeen : Option Geometry.Err := match os with
+      | .error e :: rest => if rest.all (fun x => match x with | .error e' => e' == e | .ok _ => false) then some e else none
+      | _ => none
+    -- would `os.path.normpath` of the opened spelling lead to the same files (evidence only)
+    let lexSame := (List.range n).all fun k =>
+      sameLook (Geometry.openRead d (Geometry.normPath (pathOf k))) (os.getD k (.error .value))
+    let cpOk := cp.abs || cp.comps.headD "" != ""
+    let hyp := hL && ne && wf && cpOk && (allSeen.isSome || noneSeen.isSome)
+    let specPiece (i : Int) : Res (List Nat) := match allSeen, noneSeen with
+      | some fl, _ => GeomSpec.piece fl L i
+      | none, some e => if GeomSpec.validPiece sizes L i then .error e else .error .value
+      | none, none => Geometry.getPieceFs d single cp names sizes L i
+    let qs ← (← getArr r "queries").mapM fun q => do
+      let m ← getStr q "m"
+      match m with
+      | "get_piece" =>
+        let i ← getInt q "i"
+        return answer (resJson pieceJson (Geometry.getPieceFs d single cp names sizes L i),
+                       resJson pieceJson (specPiece i), hyp)
+      | "piece_hash" =>
+        let i ← getInt q "i"
+        return answer (resJson (optJson pieceJson) (Geometry.getPieceHashFs id d single cp names sizes L i),
+                       resJson (optJson pieceJson) (Geometry.hashOfRead id (specPiece i)), hyp)
+      | "verify" =>
+        let i ← getInt q "i"
+        let spec : Res (Option Bool) := match allSeen with
+          | some fl => (GeomSpec.verifyPiece id stored fl L i).map some
+          | none => Geometry.verifyOfHash stored i (Geometry.hashOfRead id (specPiece i))
+        return answer (resJson (optJson jbool) (Geometry.verifyPieceFs id stored d single cp names sizes L i),
+                       resJson (optJson jbool) spec, hyp)
+      | _ => query L sizes stored q
+    let lookJson (x : Res (List Nat)) : Json := resJson pieceJson x
+    return jobj [("paths", jarr ((List.range n).map fun k => jstr (Torf.Paths.strOf (pathOf k)))),
+                 ("look", jarr ((List.range n).map fun k => lookJson (look k))),
+                 ("os", jarr (os.map lookJson)),
+                 ("allSeen", jbool allSeen.isSome), ("noneSeen", jbool noneSeen.isSome),
+                 ("lookAgree", jbool lookAgree), ("lexSame", jbool lexSame), ("hyp", jbool hyp),
+                 ("res", jarr qs),
+                 ("iter", match allSeen with
+                   | some fl => jarr ((Stream.iterPieces L fl).map pieceJson)
+                   | none => Json.null)]
+  return jobj [("runs", jarr runs)]
+
 def handle (op : String) (j : Json) : Except String Json :=
   match op with
   | "c11.layout" => layout j
+  | "c11.fs" => fsOp j
   | _ => throw s!"unknown op {op}"
 
 end Driver.C11
